@@ -335,6 +335,7 @@ type outq struct {
 	pend    []item
 	timerOn bool
 	dead    bool
+	closed  bool
 }
 
 type server struct {
@@ -365,11 +366,22 @@ func (o *outq) enqueue(j job) {
 		return
 	}
 	o.jobs = append(o.jobs, j)
-	o.mu.Unlock()
 	select {
 	case o.wake <- struct{}{}:
 	default:
 	}
+	o.mu.Unlock()
+}
+
+// shutdown ends the writer goroutine of this connection (end of the run)
+func (o *outq) shutdown() {
+	o.mu.Lock()
+	o.dead = true
+	if !o.closed {
+		o.closed = true
+		close(o.wake)
+	}
+	o.mu.Unlock()
 }
 
 func (o *outq) run() {
@@ -579,6 +591,7 @@ func Run(sc Scenario) Result {
 		seen: map[int]bool{}, kinds: map[int]int{}, shape: map[string]int{}}
 	var nreq int64
 	t0 := time.Now()
+	defer srv.outs.Range(func(_, o interface{}) bool { o.(*outq).shutdown(); return true })
 	node.OnConn = func(c *memcluster.ServerConn) {
 		o := &outq{sc: c, srv: srv, wake: make(chan struct{}, 1)}
 		srv.outs.Store(c.ID, o)
@@ -676,17 +689,31 @@ func Run(sc Scenario) Result {
 		gocql.TimeoutLimit = int64(sc.TimeoutLimit)
 		defer func() { gocql.TimeoutLimit = 0 }()
 	}
-	s, err := cfg.CreateSession()
-	if err != nil {
-		res.Fatal = "session: " + err.Error()
-		return res
-	}
-	if !sess.WaitConns(s, 1, 2*time.Second) {
+	// setup is retried: one stall of the machine during the handshake must not read as a defect
+	var s *gocql.Session
+	var err error
+	for try := 0; try < 3; try++ {
+		s, err = cfg.CreateSession()
+		if err != nil {
+			res.Fatal = "session: " + err.Error()
+			continue
+		}
+		res.Fatal = ""
+		ok := false
+		for w := 0; w < 3 && !ok; w++ {
+			ok = sess.WaitConns(s, 1, 2*time.Second)
+		}
+		if ok {
+			break
+		}
 		s.Close()
 		res.Fatal = "no connection"
+	}
+	if res.Fatal != "" {
 		return res
 	}
 	conn0 := gocql.VerifSessionConns(s)[0]
+	dials0 := node.NumDials() // 1 unless the setup had to be retried
 	var started, returned int64
 	var wg sync.WaitGroup
 	var oddMu sync.Mutex
@@ -730,6 +757,8 @@ func Run(sc Scenario) Result {
 		}
 		return !resp
 	}
+	progress := func() int64 { return atomic.LoadInt64(&returned)<<20 + int64(len(log.Snapshot())) }
+	noProgress := func() int64 { return 0 }
 	launch := func() {
 		for i := 0; i < sc.Callers; i++ {
 			wg.Add(1)
@@ -746,18 +775,14 @@ func Run(sc Scenario) Result {
 		time.Sleep(time.Duration(1+rng.Intn(20)) * time.Millisecond)
 		cdone := make(chan struct{})
 		go func() { s.Close(); close(cdone) }()
-		select {
-		case <-cdone:
-		case <-time.After(15 * time.Second):
+		if !waitDone(cdone, noProgress) {
 			res.Fatal = "Session.Close hangs\n" + stacks()
 			return res
 		}
 	}
 	done := make(chan struct{})
 	go func() { wg.Wait(); close(done) }()
-	select {
-	case <-done:
-	case <-time.After(20 * time.Second):
+	if !waitDone(done, progress) {
 		res.Fatal = "callers hang\n" + stacks()
 		return res
 	}
@@ -767,9 +792,7 @@ func Run(sc Scenario) Result {
 		launch()
 		done2 := make(chan struct{})
 		go func() { wg.Wait(); close(done2) }()
-		select {
-		case <-done2:
-		case <-time.After(20 * time.Second):
+		if !waitDone(done2, progress) {
 			res.Fatal = "callers hang (second wave)\n" + stacks()
 			return res
 		}
@@ -780,7 +803,7 @@ func Run(sc Scenario) Result {
 	alive := ""
 	if sc.calm() && time.Since(t0) < 5*time.Second {
 		alive = "open"
-		if conn0.Closed() || node.NumDials() != 1 {
+		if conn0.Closed() || node.NumDials() != dials0 {
 			alive = fmt.Sprintf("closed(c0closed=%v,dials=%d)", conn0.Closed(), node.NumDials())
 		} else if sc.Probes > 0 {
 			atomic.StoreInt32(&srv.probing, 1)
@@ -820,19 +843,18 @@ func Run(sc Scenario) Result {
 	}
 	add(fmt.Sprintf("calls %d", atomic.LoadInt64(&started)), fmt.Sprint(atomic.LoadInt64(&returned)))
 	if alive != "" {
-		add("alive 1", alive)
+		add(fmt.Sprintf("alive %d", dials0), alive)
 		res.Class += "/calm"
 	}
 	if probesOK >= 0 {
 		add(fmt.Sprintf("probes %d", sc.Probes), fmt.Sprint(probesOK))
 	}
 	// id accounting at quiescence, only meaningful while the first connection is still open and was the only one
-	if !sc.CloseEarly && !conn0.Closed() && node.NumDials() == 1 {
+	if !sc.CloseEarly && !conn0.Closed() && node.NumDials() == dials0 {
 		want := cap - 1 - unanswered
 		last := -1
 		stable := 0
-		dl := time.Now().Add(2 * time.Second)
-		for stable < 5 && time.Now().Before(dl) {
+		for it := 0; stable < 5 && it < 2000; it++ {
 			a := conn0.AvailableStreams()
 			if a == last && a == want {
 				stable++
@@ -842,7 +864,7 @@ func Run(sc Scenario) Result {
 			}
 			time.Sleep(time.Millisecond)
 		}
-		add("avail 1", fmt.Sprint(last))
+		add(fmt.Sprintf("avail %d", dials0), fmt.Sprint(last))
 		res.Class += "/avail"
 	} else {
 		res.Class += fmt.Sprintf("/closed(early=%v,c0closed=%v,dials=%d)", sc.CloseEarly, conn0.Closed(), node.NumDials())
@@ -850,14 +872,36 @@ func Run(sc Scenario) Result {
 	if !sc.CloseEarly {
 		cdone := make(chan struct{})
 		go func() { s.Close(); close(cdone) }()
-		select {
-		case <-cdone:
-		case <-time.After(15 * time.Second):
+		if !waitDone(cdone, noProgress) {
 			res.Fatal = "Session.Close hangs\n" + stacks()
 			return res
 		}
 	}
 	return res
+}
+
+// waitDone waits for done under a watchdog. A hang is only declared when a first window of 20 s AND a
+// second window of 25 s have passed and nothing moved during the second one (progress counter unchanged):
+// a single stall of the whole machine / a jump of the clock (seen on this VM: two independent harness
+// processes "hung" at the same instant with every goroutine in an ordinary state) cannot produce it.
+func waitDone(done <-chan struct{}, progress func() int64) bool {
+	select {
+	case <-done:
+		return true
+	case <-time.After(20 * time.Second):
+	}
+	for i := 0; i < 6; i++ {
+		p0 := progress()
+		select {
+		case <-done:
+			return true
+		case <-time.After(25 * time.Second):
+		}
+		if progress() == p0 {
+			return false
+		}
+	}
+	return false
 }
 
 func stacks() string {
@@ -1020,6 +1064,9 @@ func Main(wide bool) {
 			// a hang / failure to set up is reported as a failed case with the goroutine dump as answer
 			os.WriteFile(path+"/fatal.txt", []byte(res.Fatal), 0o644)
 			out.Case(fmt.Sprintf("calls %d", -1), "hang-or-fatal:"+strings.SplitN(res.Fatal, "\n", 2)[0], "fatal", true)
+			if strings.Contains(res.Fatal, "hang") {
+				break // one confirmed hang (45 s of watchdog) is the verdict; the goroutines of that run are still around
+			}
 			continue
 		}
 		for k, v := range res.Kinds {
